@@ -158,6 +158,14 @@ def _get_nary_table() -> dict[type[NaryOp], type[fpc.Expr]]:
         }
     return _nary_table_cache
 
+def _integer_props(**more: str) -> dict[str, fpc.Data]:
+    """The annotation of index arithmetic and integer literals, as the
+    property dictionary a parsed core would hold (every value a `Data`), so
+    that the emitted core can be read back as well as printed."""
+    props = { 'precision': 'integer', **more }
+    return { k: fpc.Data(fpc.Var(v)) for k, v in props.items() }
+
+
 class FPCoreCompileError(CompileError):
     """Any FPCore compilation error"""
 
@@ -269,20 +277,20 @@ class _FPCoreCompileInstance(Visitor):
         if e.is_integer() and self.unsafe_int_cast:
             # unsafe integer cast: compile under integer context
             v = int(e.as_rational())
-            return fpc.Ctx({ 'precision': 'integer' }, fpc.Integer(v))
+            return fpc.Ctx(_integer_props(), fpc.Integer(v))
         raise FPCoreCompileError('cannot compile unrounded constant', e.val)
 
     def _visit_hexnum(self, e: Hexnum, ctx: None):
         if e.is_integer() and self.unsafe_int_cast:
             # unsafe integer cast: compile under integer context
             v = int(e.as_rational())
-            return fpc.Ctx({ 'precision': 'integer' }, fpc.Integer(v))
+            return fpc.Ctx(_integer_props(), fpc.Integer(v))
         raise FPCoreCompileError('cannot compile unrounded constant', e.val)
 
     def _visit_integer(self, e: Integer, ctx: None) -> fpc.Expr:
         if self.unsafe_int_cast:
             # unsafe integer cast: compile under integer context
-            return fpc.Ctx({ 'precision': 'integer' }, fpc.Integer(e.val))
+            return fpc.Ctx(_integer_props(), fpc.Integer(e.val))
         else:
             raise FPCoreCompileError('cannot compile unrounded constant', e.val)
 
@@ -290,14 +298,14 @@ class _FPCoreCompileInstance(Visitor):
         if self.unsafe_int_cast and e.is_integer():
             # unsafe integer cast: compile under integer context
             v = int(e.as_rational())
-            return fpc.Ctx({ 'precision': 'integer' }, fpc.Integer(v))
+            return fpc.Ctx(_integer_props(), fpc.Integer(v))
         raise FPCoreCompileError('cannot compile unrounded constant', f'{e.p}/{e.q}')
 
     def _visit_digits(self, e: Digits, ctx: None) -> fpc.Expr:
         if self.unsafe_int_cast and e.e == 0 and e.b == 2:
             # unsafe integer cast: compile under integer context
             v = int(e.as_rational())
-            return fpc.Ctx({ 'precision': 'integer' }, fpc.Integer(v))
+            return fpc.Ctx(_integer_props(), fpc.Integer(v))
         raise FPCoreCompileError('cannot compile unrounded constant', f'digits({e.m}, {e.e}, {e.b})')
 
     def _visit_call(self, e: Call, ctx: None) -> fpc.Expr:
@@ -356,8 +364,8 @@ class _FPCoreCompileInstance(Visitor):
         start_expr = self._visit_expr(start, ctx)
         stop_expr = self._visit_expr(stop, ctx)
         return fpc.Tensor(
-            [(tuple_id, fpc.Ctx({ 'precision': 'integer' }, fpc.Sub(stop_expr, start_expr)))],
-            fpc.Ctx({ 'precision': 'integer' }, fpc.Add(fpc.Var(tuple_id), start_expr))
+            [(tuple_id, fpc.Ctx(_integer_props(), fpc.Sub(stop_expr, start_expr)))],
+            fpc.Ctx(_integer_props(), fpc.Add(fpc.Var(tuple_id), start_expr))
         )
 
     def _visit_range3(self, start: Expr, stop: Expr, step: Expr, ctx: None) -> fpc.Expr:
@@ -369,9 +377,9 @@ class _FPCoreCompileInstance(Visitor):
         stop_expr = self._visit_expr(stop, ctx)
         step_expr = self._visit_expr(step, ctx)
         return fpc.Tensor(
-            [(tuple_id, fpc.Ctx({ 'precision': 'integer' },
+            [(tuple_id, fpc.Ctx(_integer_props(),
                 fpc.Ceil(fpc.Div(fpc.Sub(stop_expr, start_expr), step_expr))))],
-            fpc.Ctx({ 'precision': 'integer' },
+            fpc.Ctx(_integer_props(),
                 fpc.Add(fpc.Mul(fpc.Var(tuple_id), step_expr), start_expr))
         )
 
@@ -608,7 +616,7 @@ class _FPCoreCompileInstance(Visitor):
         tuple_id = str(self.gensym.fresh('t'))
         iter_id = str(self.gensym.fresh('i'))
         accum_id = str(self.gensym.fresh('accum'))
-        idx_ctx = { 'precision': 'integer' }
+        idx_ctx = _integer_props()
 
         tup = self._visit_expr(arg, ctx)
         next_idx = fpc.Ctx(idx_ctx, fpc.Add(fpc.Var(iter_id), fpc.Integer(1)))
@@ -645,7 +653,7 @@ class _FPCoreCompileInstance(Visitor):
         tuple_id = str(self.gensym.fresh('t'))
         iter_id = str(self.gensym.fresh('i'))
         accum_id = str(self.gensym.fresh('accum'))
-        idx_ctx = { 'precision': 'integer' }
+        idx_ctx = _integer_props()
 
         tup = self._visit_expr(e.arg, ctx)
         return fpc.Let(
@@ -1022,7 +1030,7 @@ class _FPCoreCompileInstance(Visitor):
                 for sid, tid in zip(size_ids, tuple_ids)
             ]
             # bind the indices to temporaries
-            idx_ctx = { 'precision': 'integer', 'round': 'toZero' }
+            idx_ctx = _integer_props(round='toZero')
             idx_ids = [str(self.gensym.fresh('i')) for _ in e.targets]
             idx_binds: list[tuple[str, fpc.Expr]] = []
             for i, iid in enumerate(idx_ids):
@@ -1036,7 +1044,7 @@ class _FPCoreCompileInstance(Visitor):
                     idx_expr = fpc.Ctx(idx_ctx, fpc.Fmod(fpc.Div(fpc.Var('k'), mul_expr), fpc.Var(size_ids[i])))
                 idx_binds.append((iid, idx_expr))
             # iteration variable
-            iter_ctx = { 'precision': 'integer'}
+            iter_ctx = _integer_props()
             iter_id = str(self.gensym.fresh('k'))
             iter_expr = fpc.Ctx(iter_ctx, _nary_mul([fpc.Var(sid) for sid in size_ids]))
             # reference variables
